@@ -11,6 +11,11 @@
 #include <QTcpSocket>
 #include <QThread>
 #include <unistd.h>
+#include <fcntl.h>
+#include <netinet/in.h>
+#include <sys/socket.h>
+#include <cstring>
+#include <qhttpengine/filesystemhandler.h>
 #include <qhttpengine/handler.h>
 #include <qhttpengine/middleware.h>
 #include <qhttpengine/server.h>
@@ -73,6 +78,90 @@ void runTls(const Scn &scn, Out &out)
         else if (p[0] == "nocert") nocert = true;
         else if (p[0] == "raw" || p[0] == "ssl") { kind = p[0]; payload = unhx(p[1]); }
         else if (p[0] == "idle") idleMs = p[1].toInt();
+    }
+    if (scn.toks.contains("halfclose")) {
+        // a client that shuts its sending side right behind the request (as `nc -N` or an HTTP/1.0 client does) still
+        // gets the whole response for a file that fits in one copy block
+        alarm(25);
+        QByteArray root;
+        foreach (const QString &t, scn.toks) { QStringList p = t.split(':'); if (p[0] == "root") root = unhx(p[1]); }
+        FilesystemHandler fh(QString::fromUtf8(root));
+        Server *srv = new Server(&fh);
+        srv->listen(QHostAddress::LocalHost, 0);
+        pump(100);
+        bool ok = true;
+        const char *reqs[] = { "GET /in.txt HTTP/1.1\r\n\r\n", "GET /in.txt HTTP/1.1\r\nRange: bytes=3-9\r\n\r\n", "GET /sub/deep.txt HTTP/1.0\r\n\r\n" };
+        for (int i = 0; i < 3 && ok; ++i) {
+            int fd = ::socket(AF_INET, SOCK_STREAM, 0);
+            sockaddr_in sa; memset(&sa, 0, sizeof sa); sa.sin_family = AF_INET; sa.sin_port = htons(srv->serverPort()); sa.sin_addr.s_addr = htonl(INADDR_LOOPBACK);
+            if (::connect(fd, reinterpret_cast<sockaddr *>(&sa), sizeof sa) != 0) { ok = false; ::close(fd); break; }
+            ::send(fd, reqs[i], strlen(reqs[i]), 0);
+            ::shutdown(fd, SHUT_WR);
+            ::fcntl(fd, F_SETFL, ::fcntl(fd, F_GETFL, 0) | O_NONBLOCK);
+            QByteArray got; QElapsedTimer t; t.start();
+            bool eof = false;
+            while (!eof && t.elapsed() < 3000) {
+                pump(20);
+                char buf[4096]; ssize_t n;
+                while ((n = ::recv(fd, buf, sizeof buf, 0)) > 0) got.append(buf, int(n));
+                if (n == 0) eof = true;
+            }
+            ::close(fd);
+            int he = got.indexOf("\r\n\r\n");
+            int cl = -1;
+            foreach (const QByteArray &l, got.left(qMax(he, 0)).split('\n')) if (l.toLower().startsWith("content-length:")) cl = l.mid(15).trimmed().toInt();
+            ok = (got.startsWith("HTTP/1.0 200") || got.startsWith("HTTP/1.0 206")) && he > 0 && cl >= 0 && got.size() - he - 4 == cl;
+            pump(100);
+        }
+        *obs << QString("x:45:%1").arg(ok ? "01" : "00");
+        out.obs << "end";
+        alarm(0);
+        delete srv;
+        pump(100);
+        return;
+    }
+    if (scn.toks.contains("crowd")) {
+        // a small accept backlog, two clients that have sent half a request, a third that sends a whole one and leaves,
+        // then the first two finish: all three are served, and every per-connection object is gone afterwards
+        alarm(25);
+        QStringList calls;
+        LogHandler h(&calls);
+        Server *srv = new Server(&h);
+        srv->setMaxPendingConnections(2);
+        srv->listen(QHostAddress::LocalHost, 0);
+        pump(100);
+        int idle = srv->findChildren<QObject *>().size();
+        bool ok = true;
+        for (int round = 0; round < 2 && ok; ++round) {
+            QTcpSocket a, b, c;
+            a.connectToHost(QHostAddress::LocalHost, srv->serverPort()); a.waitForConnected(1000);
+            b.connectToHost(QHostAddress::LocalHost, srv->serverPort()); b.waitForConnected(1000);
+            a.write("GET /a HTTP/1.1\r\n"); a.flush();
+            b.write("GET /b HTTP/1.1\r\n"); b.flush();
+            pump(300);
+            c.connectToHost(QHostAddress::LocalHost, srv->serverPort()); c.waitForConnected(1000);
+            c.write("GET /c HTTP/1.1\r\n\r\n"); c.flush();
+            pump(500);
+            QByteArray gc = c.readAll();
+            c.disconnectFromHost();
+            pump(300);
+            a.write("\r\n"); a.flush();
+            b.write("\r\n"); b.flush();
+            pump(600);
+            QByteArray ga = a.readAll(), gb = b.readAll();
+            a.disconnectFromHost(); b.disconnectFromHost();
+            pump(500);
+            ok = ga.startsWith("HTTP/1.0 200") && gb.startsWith("HTTP/1.0 200") && gc.startsWith("HTTP/1.0 200")
+                 && srv->findChildren<QObject *>().size() == idle;
+        }
+        ok = ok && calls.filter("pr:0:").size() == 6;
+        *obs << QString("x:44:%1").arg(ok ? "01" : "00");
+        out.obs << "end";
+        alarm(0);
+        QStringList sink; h.obs = &sink;
+        delete srv;
+        pump(100);
+        return;
     }
     if (scn.toks.contains("stall")) {
         // one client asks for a huge response and never reads it; handling that request must not
